@@ -841,3 +841,8 @@ for _pid, _cfg in CHECKS.items():
     for _g in _cfg["groups"]:
         _ids = {it["id"] for it in _g["thorough"]}
         _g["thorough"] = list(_g["thorough"]) + [it for it in _g["quick"] if it["id"] not in _ids]
+# C06: a relative address that climbs out of a one-level local base (the joined path's first segment is then free)
+for _g in CHECKS["C06"]["groups"][:1]:
+    for _tier in ("quick", "thorough"):
+        _g[_tier] = list(_g[_tier]) + [{"id": "resolved-6", "entry": "HarnessC06Resolved", "sparams": {"base": "./{1}", "rel": "../{3}"}, "_w": 4},
+                                       {"id": "resolved-7", "entry": "HarnessC06Resolved", "sparams": {"base": "./", "rel": "./{3}"}, "_w": 3}]
